@@ -1,34 +1,150 @@
 """what MANIFEST.json claims, per property (kept next to the code that implements it)"""
 NOTES = ('Technique family: static analysis only. Every check recompiles /repo\'s working tree to LLVM IR (clang-14 -O0 + mem2reg, '
-         'the repo\'s own flags) in a scratch directory and decides structural clauses of the property; exit 0 pass, 1 violation, '
-         '2 analysis broken (anchor vanished / undecidable form). Clauses that quantify over runtime values are not decided and are '
-         'listed in each level_note and in DESIGN.md §4.')
+         'the repo\'s own flags, all 22 compile commands of the four libraries) in a scratch directory and decides structural clauses '
+         'of the property with repository-specific rules; exit 0 pass, 1 violation (VIOLATION line + report file), 2 analysis broken '
+         '(anchor vanished / undecidable form / instance count below the confirmed minimum). Clauses that quantify over runtime values '
+         'are not decided; they are listed in each level_note and in DESIGN.md section 4. No check executes library code; '
+         'replays/ holds triage programs that no registered check runs.')
+_T = 'Trusted: clang-14 front end and mem2reg, the textual IR loader, debug-info field/enumerator names, the external contract table (libc, zlib, pthread, dl*, ISA-L).'
 CHECKS = {
+ 'C01': dict(
+  technique='loop/cursor dataflow rules and pointer-provenance rules over LLVM IR',
+  text='Decides structural preconditions of the round trip: in the split loop of encode and the reassembly loop of decode the bytes copied, '
+       'the cursor advance and the decrement of the remaining length are one SSA value equal to min(remaining, payload size) (also in affine '
+       'form, with a wrap-around test for unsigned remainders); every fragment handed to the SIMD/GF kernels is freshly allocated 16-byte '
+       'aligned or passed is_addr_aligned(.,16); replacement copies of unaligned fragments copy header+payload into a buffer of matching size.',
+  note='The property as stated (decoded bytes == input for all data, lengths, erasure sets, permutations) is a runtime-value statement and is NOT decided. ' + _T),
+ 'C02': dict(
+  technique='constant return propagation, sentinel guard dominance, refusal-chain (may-fail result use) analysis with single-value abstract simulation',
+  text='Decides: beyond-tolerance arms of the XOR decoder/planner return negative; the -1 sentinel of the parity search is tested before use; '
+       'in the decode/reconstruct/fragments_needed cones every fallible result is returned or tested with a failing edge that returns negative; '
+       'every backend operation result in the front end is tested and failure returns an error with outputs untouched; header-derived indexes '
+       'carry two-sided dominating bounds and more than m missing fragments is refused.',
+  note='NOT decided: in-bounds reads/writes in general (value ranges through the plug-in boundary), exactness of recovered bytes. Two RS adapter call edges are '
+       'exempt by name because the front-end check decided by R02d pre-empts their only failure; numeric -1 sentinels of the GF kernels are exempt (MDS fact of C04). ' + _T),
+ 'C03': dict(
+  technique='dominating-guard bound implication, effect analysis, argument-role and ordering rules over LLVM IR',
+  text='Decides: destination_idx is checked 0 <= idx < k+m before every use and refusals return errors; a supplied destination is copied out '
+       'untouched; the rebuilt header comes from add_fragment_metadata with destination_idx, the sizes returned by prepare_fragments_for_decode, '
+       'the instance ct and checksum on, applied after the successful backend call and before the copy-out; the reconstruct cone propagates '
+       'failures; the XOR reconstruct falls back to the full decoder with the complete erasure list.',
+  note='NOT decided: byte identity of the rebuilt payload (runtime values). ' + _T),
+ 'C04': dict(
+  technique='constant extraction from IR, region-coverage loop rules, write-effect analysis',
+  text='Decides only the field definition and write protection: reduction polynomial 0x1100b / bit 16, table sizes and centre pointer, w = 16 '
+       'stored unconditionally in descriptor and args, 16-bit host-order words; region_xor/region_multiply process every byte (wide loop over '
+       'blocksize/W plus a tail with the same modulus); the generator matrix is stored once and never written by the coders.',
+  note='Almost all of C04 is numerical and NOT decided: generator == closed form, MDS property, parity bytes; a changed evaluation point or dropped '
+       'normalisation is not detected. ' + _T),
+ 'C05': dict(
+  technique='constant propagation of every (k,m,hd) through the whitelist with loads resolved in table initialisers; exhaustive GF(2) rank/weight enumeration; index-space type inference; switch/arm structure rules',
+  text='Decides exhaustively for the constant tables of the current tree: accepted set == shapes with in-bounds non-null tables of lengths (m,k); '
+       'parity/data bitmaps are transposes; every erasure set smaller than hd leaves rank k (thorough: up to m); peelability facts; index-space '
+       'typing of all XOR index values; failure-pattern switches exhaustive with the transition function derived from enumerator names and matching '
+       'decoder arms; beyond-tolerance arms refuse; -1 sentinels tested; the XOR kernel covers every byte (both build flavours in the thorough tier); '
+       'the reconstruct fallback passes the full erasure list.',
+  note='NOT decided: correctness of the three peel decoders as algorithms, XOR arithmetic itself, "for every payload length" beyond kernel coverage. ' + _T),
+ 'C06': dict(
+  technique='refusal-chain analysis, forward influence (taint) analysis, must-pass-through and return-structure rules, sibling expression agreement',
+  text='Decides: the fragments_needed cone propagates failures; index spaces of the XOR planners; both input lists influence the stores into '
+       'fragments_needed[] in RS, ISA-L and XOR planners; count == k is tested after every append before the loop can end, that edge stores the '
+       'terminator at [count] and is the only source of 0; stored indexes are < k+m; XOR success paths store the terminator; planner and decoder '
+       'agree on the P-xor-Q equation.',
+  note='NOT decided: sufficiency/minimality of the returned set and its disjointness from excluded indexes in general (rank condition on runtime lists). ' + _T),
  'C07': dict(
   technique='compile-time layout witnesses (_Static_assert) + who-may-write effect analysis over LLVM IR',
-  text='Decides, for the current tree and every function of the build: header layout (all offsets/sizes/signedness/magic) by '
-       'compile-time witness; that only the helper setters and add_fragment_metadata store into fragment headers and that the '
-       'encode path stores every field; that both metadata-CRC sites cover (&hdr->meta, 59) and nothing is stored after sealing; '
-       'that all k+m fragments get one size.',
-  note='Structural necessary conditions only: byte-for-byte equality with an independent serializer (parity bytes, payload '
-       'contents) is a runtime-value statement and is NOT decided. Trusted: clang-14 ABI for the configured target, the IR loader.'),
-}
-CHECKS['C18'] = dict(
-  technique='interprocedural lockset (must/may held locks) over LLVM IR with slot-resolved call graph',
-  text='Schedule-independent decision for every access site of the build: all loads/stores of the instance registry '
-       '(active_instances, next_backend_desc, ec_backend.link/idesc) reachable from the 16 public entry points hold '
-       'active_instances_rwlock (stores in write mode); all accesses to the GF-table refcount and all table-pointer stores hold the '
-       'module mutex; no path returns holding an acquired lock.',
-  note='Decides data-race freedom of the registry and the shared tables only. NOT decided: results equal sequential results, '
-       'atomicity of multi-step operations, races inside external plug-ins. Assumes loader ctor/dtor are single-threaded and '
-       'table readers run under an instance that holds a table reference.')
-CHECKS['C13'] = dict(
+  text='Decides: header layout (all offsets/sizes/signedness/magic/version macro) by compile-time witness with the repo flags; only the helper '
+       'setters and add_fragment_metadata store into fragment headers and the encode path stores every field; both metadata-CRC sites cover '
+       '(&hdr->meta, 59) with seed 0 and nothing is stored after sealing; all k+m fragments get one size.',
+  note='NOT decided: byte-for-byte equality with an independent serializer (parity bytes, payload contents), host endianness. ' + _T),
+ 'C08': dict(
+  technique='sibling cross-check of op-slot functions, def-use pattern rules, expression-tree extraction evaluated on a residue-covering grid',
+  text='Decides: per backend the element_size slot and the word size left in args.w denote the same quantity (constant stored unconditionally, or '
+       'descriptor field copied from args.w); fragment-size query and encode both use get_aligned_data_size(instance,len)/k plus the backend metadata '
+       'size of that quotient; minimum size == aligned(desc,1); the round-up expressions of helper and public query equal ceil(len/a)*a on a grid '
+       'covering every residue class and their alignment operand is k*(w/8).',
+  note='NOT decided: truncation for lengths beyond INT_MAX; the rounding identity is decided on a grid over the extracted expression (argued, not proved, beyond it). ' + _T),
+ 'C09': dict(
+  technique='path-obligation checking over all acyclic paths of the predicate, loop-structure and dominance rules, transitive write-effect analysis',
+  text='Decides for is_invalid_fragment_header: version 0 invalid; magic native or swapped; swapped paths use byte-swapped version and checksum; '
+       'no-checksum acceptance only below 1.2.0; otherwise a full 32-bit equality with crc32/crc32_alt over (&meta,59); both unequal invalid. '
+       'Validation of every supplied fragment dominates the first consumer in decode/reconstruct/metadata query with -EBADHEADER on failure and no '
+       'other loop exit; helper getters read metadata only behind a native magic test; validation has no write effect on the fragment.',
+  note='NOT decided: correctness of zlib crc32; the "damaged bytes still satisfy the checksum" clause is probabilistic. ' + _T),
+ 'C10': dict(
+  technique='path-obligation checking, environment-predicate decision by equivalence-class representatives, constant-table regeneration',
+  text='Decides: writer passes one value as payload size and checksum length; each CRC call covers (fragment+80, blocksize) with seed 0 and is '
+       'stored into chksum[0] with type/mismatch fields; both sites reading LIBERASURECODE_WRITE_LEGACY_CRC implement the documented predicate '
+       '(unset, "", "0" standard; else historical; strcmp forms understood); verifier clears the mismatch flag only under a true 32-bit equality '
+       'and raises it when both CRCs differ, over (fragment+80, returned size); validation rejects a set flag; crc32_tab equals the regenerated '
+       'table and the historical CRC fetches a signed byte with the sign-extending shift.',
+  note='NOT decided: zlib crc32 itself; bit-exactness of the historical update expression beyond the listed constants. ' + _T),
+ 'C11': dict(
+  technique='type-resolved per-field store rule from debug info, path obligations, merge-point reachability',
+  text='Decides: in the swapped-magic region every multi-byte member of fragment_metadata (each chksum[] element through its full loop) is stored '
+       'exactly once as bswapN(same member) with N = member width and no truncation, no one-byte member is stored; header validation uses '
+       'byte-swapped references on swapped paths; checksum dispatch and CRC inputs are read from the returned copy after the native/swapped paths merge.',
+  note='Almost entirely structural; correctness of the bswap primitives themselves is assumed (llvm.bswap / repo fallback recognised by name and width). ' + _T),
+ 'C12': dict(
+  technique='path-obligation checking, op-table/global-initialiser consistency, single-value abstract simulation of the verdict',
+  text='Decides: valid verdicts require an unsigned (or two-sided signed) idx < k+m, backend id equality and a true is_compatible_with(version); '
+       'is_invalid_fragment(_metadata) return valid only after instance found, native header, version <= LIBERASURECODE_VERSION (constant checked by '
+       'witness), metadata query == 0, verdict == 0 exactly, chksum_mismatch != 1; op tables complete, each is_compatible_with compares with its own '
+       'backend version, ec_backends_supported[i]->id == i; stripe verification returns the first negative verdict at once and 0 otherwise.',
+  note='NOT decided: behaviour on non-host-order headers beyond C09. ' + _T),
+ 'C13': dict(
   technique='null-check dominance, dominating-guard bound implication and divisor-shape rules over LLVM IR',
-  text='For all 16 prototypes of erasurecode.h and every pointer parameter: each dereference (also in callees and shared cleanup '
-       'blocks) is dominated by a non-null edge and the null edge returns a negative constant; every descriptor look-up is tested '
-       'and refuses with an error; destination index / fragment length / fragment count are range-checked before the first consumer; '
-       'the guards dominating instance allocation imply k>=1, m>=0, k+m<=32, id<EC_BACKENDS_MAX (RS: m>=1, ISA-L: whole-byte w>=8); '
-       'every front-end divisor is built from k and the byte word size.',
-  note='Does NOT decide absence of all arithmetic/memory faults on accepted instances (needs value ranges of every size expression); '
-       'allocation-failure paths are outside the quantifier. The XOR shape whitelist is decided under C05.')
+  text='For all 16 prototypes of erasurecode.h and every pointer parameter: each dereference (also in callees and shared cleanup blocks) is '
+       'dominated by a non-null edge and the null edge returns a negative constant; every descriptor look-up is tested and refuses with an error; '
+       'destination index / fragment length / fragment count are range-checked before the first consumer; the guards dominating instance '
+       'allocation imply k>=1, m>=0, k+m<=32, id<EC_BACKENDS_MAX (RS: m>=1, ISA-L: whole-byte w>=8); every front-end divisor is built from k and '
+       'the byte word size.',
+  note='NOT decided: absence of all arithmetic/memory faults on accepted instances (needs value ranges of every size expression). The XOR shape whitelist is '
+       'decided under C05. Two null-tolerant APIs are listed by name with reasons. ' + _T),
+ 'C14': dict(
+  technique='allocator-shape rule, lockset, ordering/dominance rules, who-may-write analysis, path-sensitive reference-count dataflow',
+  text='Decides: descriptor allocator increments, clamps to 1 and returns only a value the registry does not hold; registry stores hold the write '
+       'lock; destroy order exit/close -> unregister -> free on rc==0; registration only after handle and descriptor are non-NULL, refusals negative; '
+       'every descriptor look-up is tested; instance/descriptor state is stored only during create/init/register/unregister/close; RS init holds '
+       'exactly one table reference on success and none on failure, exit drops one, tables are freed only at count 0.',
+  note='NOT decided: behaviour over histories as such (uniqueness after wrap, destruction orders) - only through these invariants. ' + _T),
+ 'C15': dict(
+  technique='transitive effect analysis (writes-through, frees, global stores) over the slot-resolved call graph; guard-correspondence rule',
+  text='Decides: validation/metadata query/encode have no write effect on their inputs; prepare_fragments_for_decode never frees or writes through '
+       'caller fragments; the built-in RS decoder writes data[x]/parity[y] only under _missing[x]/_missing[k+y] and reconstruct only the destination; '
+       'fragment buffers are zero-filled over their full size; no function in the operation cones stores to a global/static and the only getenv is '
+       'LIBERASURECODE_WRITE_LEGACY_CRC.',
+  note='NOT decided: in-bounds reads; write-freedom of XOR/ISA-L decoders w.r.t. caller fragments in general; cross-thread determinism beyond C18. ' + _T),
+ 'C16': dict(
+  technique='ownership typestate dataflow per allocation site with interprocedural summaries; bit/guard correspondence rules; sibling init/exit comparison',
+  text='Decides for ~90 allocation sites in scope: no path returns with an owned object, frees twice or uses after free; realloc_bm protocol (right bit '
+       'set for each fresh buffer, exactly the flagged entries freed on every exit); encode_cleanup frees k+m elements and both arrays; each backend '
+       'exit releases what init acquired; a callee that frees a parameter on its error path is not followed by a second free in the caller.',
+  note='NOT decided: statements over call histories (dangling pointers kept by the caller), heap state. ' + _T),
+ 'C17': dict(
+  technique='single-value abstract simulation of operation results, must-pass-through ordering rules, ownership typestate on failure paths',
+  text='Decides: each of the five backend operation results is tested and failure returns a negative value without touching outputs; init failure '
+       'closes the dl handle then frees the instance; encode failure restores fragment pointers before cleanup; no leak on any path of the entry '
+       'points; adapters propagate failures of their built-ins.',
+  note='NOT decided: "subsequent calls behave normally" beyond C14 R14e (no instance state is written by operations). ' + _T),
+ 'C18': dict(
+  technique='interprocedural lockset (must/may held locks) over LLVM IR with slot-resolved call graph',
+  text='Schedule-independent decision for every access site of the build: all loads/stores of the instance registry (active_instances, '
+       'next_backend_desc, ec_backend.link/idesc) reachable from the 16 public entry points hold active_instances_rwlock (stores in write mode); '
+       'all accesses to the GF-table refcount and all table-pointer stores hold the module mutex; no path returns holding an acquired lock.',
+  note='Decides data-race freedom of the registry and the shared tables only. NOT decided: results equal sequential results, atomicity of multi-step '
+       'operations, races inside external plug-ins. Assumes loader ctor/dtor are single-threaded and table readers hold a table reference. ' + _T),
+ 'C19': dict(
+  technique='failure-edge reachability, sibling loop-predicate agreement, dlsym null-test rule, cursor-advance rule, plus shared ownership/planner rules',
+  text='Decides for the ISA-L adapters (never executed by the suite): inversion failure / too few survivors return negative without reaching table '
+       'expansion or encode; row selection and buffer selection take index i iff bit i clear, ascending, capped at k; every dlsym result is null-tested; '
+       'both cursors of get_inverse_rows advance; planner rules; ownership typestate and exit-mirrors-init; op tables; word-size guard.',
+  note='NOT decided: numerical correctness of matrix selection, inverse-row synthesis, table expansion; anything inside ISA-L (contracts only). ' + _T),
+ 'C20': dict(
+  technique='provenance and control-dependence rule on the fragment list reaching each consumer, plus the C12 path obligations',
+  text='Decides: on paths with force_metadata_checks set every consumer of fragment contents (fast path and partition) receives a list whose '
+       'every element store is control-dependent on is_invalid_fragment(desc, that element) == 0, indexed by the running count of such stores, with '
+       'that count passed alongside; never the caller\'s unfiltered list; the verdict function carries the full validation pipeline obligations.',
+  note='NOT decided: that decoding the remaining fragments is correct (C01). ' + _T),
+}
 NOT_APPLICABLE = {}
